@@ -97,7 +97,8 @@ def revolve(
 
     if sections is None:
         # default to 32 sections for a full revolution
-        sections = int(angle / (np.pi * 2) * 32)
+        # and at least one section for a small partial revolution
+        sections = max(int(angle / (np.pi * 2) * 32), 1)
 
     # change to face count
     sections += 1
